@@ -76,9 +76,73 @@ def runOps (w : World) : List String → List String → Option (List String)
     | none => none
     | some (w', o) => runOps w' rest (s!"{o}/{showTimeout w'.s}" :: acc)
 
+/-! `A <stall 0|1> <ping 0|1> <drop: - | k<ms> | i<ms>> <redial ms>` — a scenario played against the
+real `ActiveRelayActor` through a TCP forwarder (see harness/hiroh/src/bin/c14.rs); the model
+plays it with nominal times: connection 1 at 0 with its first ping answered at once, the
+optional stall and `CheckConnection` ping at 100 ms. -/
+
+def awaitA (a : Actor D) (now ms : Nat) : Actor D × Nat × Option Nat :=
+  match a.conn with
+  | some c =>
+    match c.tracker.inner with
+    | some p =>
+      if p.deadline ≤ now + ms then
+        let t := max now p.deadline
+        match astep a t (.tr .poll) with
+        | (a', .dead n) => (a', t, some n)
+        | (a', _) => (a', now + ms, none)
+      else (a, now + ms, none)
+    | none => (a, now + ms, none)
+  | none => (a, now + ms, none)
+
+def trA (a : Actor D) (now : Nat) (op : Op D) : Actor D := (astep a now (.tr op)).1
+
+def runA (stall ping : Bool) (drop : Option Nat) (redial : Nat) : String :=
+  let a : Actor D := Actor.start
+  let a := (astep a 0 .connected).1
+  let a := trA a 0 (.ping (.issued 0) none)
+  let a := trA a 0 (.pong (.issued 0))
+  let a := if ping then trA a 100 (.ping (.issued 1) none) else a
+  let a := if ping && !stall then trA a 100 (.pong (.issued 1)) else a
+  let window := drop.getD 1300
+  let (a, t, dead) := awaitA a 100 window
+  match dead, drop with
+  | none, none => "c1 alive1"
+  | _, _ =>
+    let (a, first) := match dead with
+      | some n => (a, s!"dead{n}")
+      | none => ((astep a t .lost).1, "lost1")
+    let t2 := t + redial
+    let a := (astep a t2 .connected).1
+    let a := trA a t2 (.ping (.issued 2) none)
+    let a := trA a t2 (.pong (.issued 2))
+    let (_, _, dead2) := awaitA a t2 450
+    let last := match dead2 with
+      | some n => s!"dead{n}"
+      | none => "alive2"
+    s!"c1 {first} c2 {last}"
+
+def natLe? (s : String) (hi : Nat) : Option Nat := do
+  let n ← decimal? s
+  if n ≤ hi then some n else none
+
+def handleA (toks : List String) : String :=
+  match toks with
+  | [st, pg, dr, rd] =>
+    let b? (s : String) : Option Bool := if s = "0" then some false else if s = "1" then some true else none
+    let drop? : Option (Option Nat) :=
+      if dr = "-" then some none
+      else if dr.startsWith "k" || dr.startsWith "i" then (natLe? (dr.drop 1).toString 5000).map some
+      else none
+    match b? st, b? pg, drop?, natLe? rd 5000 with
+    | some st, some pg, some dr, some rd => runA st pg dr rd
+    | _, _, _, _ => "bad-input"
+  | _ => "bad-input"
+
 def handleLine (payload : String) : String :=
   match tokens payload with
   | [] => "bad-input"
+  | "A" :: rest => handleA rest
   | m :: rest =>
     match decimal? m with
     | none => "bad-input"
